@@ -110,3 +110,54 @@ func H_C01_after_write() {
 	nd.Assert("C09.history.count", cerr == nil && n == len(c.matching(crit)))
 	nd.Reach("end")
 }
+
+var q1Doc = ref.Opts{Kinds: ref.KNil | ref.KFloat | ref.KString | ref.KBool, MaxStr: 1, FloatNormal: true}
+var q1Lit = ref.Opts{Kinds: ref.KNil | ref.KFloat | ref.KString, MaxStr: 1, ConcFloats: true}
+
+//verif:harness props=C01,C02,C16 tier=quick bounds="one document, field x absent or nil/float64 (symbolic)/string<=1/bool; every leaf operator (Exists, NotExists, Eq, Neq, Gt, GtEq, Lt, LtEq, In<=1, Contains<=1, Like) with literal nil/float{-1.5,0,2.5}/string<=1; index on x absent, before or after the data: FindAll through the database (normalisation, planner, index scan, filter) equals the documented semantics"
+func H_C01_leaf_mixed() {
+	e := openEnv()
+	leaf := genPlanLeaf("c", []string{"x"}, q1Lit, false)
+	do := q1Doc
+	if leaf.Op == ref.OpLike {
+		do.Kinds &^= ref.KString
+	}
+	cfg := stateCfg{nDocs: 1, fields: func(i int) map[string]interface{} { return genFields("d", do, "x") }}
+	if nd.Choice("index.x", 2) == 1 {
+		cfg.idxField = []string{"x"}
+	}
+	a := buildState(e, cfg)
+	checkFindAll(e, a, leaf, "C01.leaf")
+	nd.Reach("end")
+}
+
+//verif:harness props=C01,C02 tier=thorough bounds="2 documents (first: x,y each absent or from {-1.5,0,2.5}; second: x=0,y=2.5); criteria = Not/And/Or tree of depth <= 1 over leaves Eq/Neq/Gt/LtEq on x or y with symbolic float64 literals; index sets none/{x}/{y}/{x,y}: FindAll equals the documented semantics"
+func H_C01_tree1() {
+	e := openEnv()
+	vals := ref.Opts{Kinds: ref.KFloat, ConcFloats: true}
+	cfg := stateCfg{nDocs: 2, fields: func(i int) map[string]interface{} {
+		if i == 1 {
+			return map[string]interface{}{"x": 0.0, "y": 2.5}
+		}
+		return genFields("d", vals, "x", "y")
+	}}
+	cfg.idxField = [][]string{{}, {"x"}, {"y"}, {"x", "y"}}[nd.Choice("indexes", 4)]
+	a := buildState(e, cfg)
+	ops := []int{ref.OpEq, ref.OpNeq, ref.OpGt, ref.OpLtEq}
+	leaf := func(n string) *ref.Crit {
+		return &ref.Crit{Op: ops[nd.Choice(n+".op", len(ops))], Field: []string{"x", "y"}[nd.Choice(n+".field", 2)], Val: ref.Value(n+".v", opLit)}
+	}
+	var crit *ref.Crit
+	switch nd.Choice("node", 4) {
+	case 0:
+		crit = leaf("a")
+	case 1:
+		crit = &ref.Crit{Op: ref.OpNot, A: leaf("a")}
+	case 2:
+		crit = &ref.Crit{Op: ref.OpAnd, A: leaf("a"), B: leaf("b")}
+	case 3:
+		crit = &ref.Crit{Op: ref.OpOr, A: leaf("a"), B: leaf("b")}
+	}
+	checkFindAll(e, a, crit, "C01.tree")
+	nd.Reach("end")
+}
